@@ -153,7 +153,17 @@ func defScanRules(c *core.Ctx, r *core.Report, ruleOf func(row string) string) (
 		return goBodies, false
 	}
 	scan := bs.parallel[0]
+	// the functions the scan is made of: its own body and literals, and a helper it hands a literal to that owns the
+	// fan-out (loop, goroutines, join)
+	parts := core.WithAnon(scan)
 	for _, f := range core.WithAnon(scan) {
+		for _, ci := range core.Calls(f) {
+			if cal := ci.Common().StaticCallee(); cal != nil && c.InScope(cal) && containsGo(cal) {
+				parts = append(parts, core.WithAnon(cal)...)
+			}
+		}
+	}
+	for _, f := range parts {
 		for _, b := range f.Blocks {
 			for _, in := range b.Instrs {
 				if g, isGo := in.(*ssa.Go); isGo {
